@@ -1160,6 +1160,11 @@ func rtRune(a *aggregator, v *rtView) {
 				return
 			}
 			if b, ok := x.Type().Underlying().(*types.Basic); ok && b.Info()&types.IsString != 0 {
+				// a constant string (an indentation or padding table) holds no input text
+				if _, isConst := x.(*ssa.Const); isConst {
+					n++
+					return
+				}
 				bad = append(bad, fmt.Sprintf("%s in %s: a string is indexed/sliced (byte offsets) in the runtime", v.in.srcPos(in.Pos()), f.Name()))
 				return
 			}
@@ -1167,7 +1172,7 @@ func rtRune(a *aggregator, v *rtView) {
 		})
 	}
 	// the three quoted-text sites slice a []rune
-	a.Decide(len(bad) == 0 && n > 0, "R-rune", "runtime/no string is indexed or sliced", cfg, "",
+	a.Decide(len(bad) == 0 && n > 0, "R-rune", "runtime/no string that may hold input text is indexed or sliced", cfg, "",
 		fmt.Sprintf("%d slice/index operations in the generated file: none has a string operand, so token offsets only ever index []rune values", n), strings.Join(bad, "; "))
 	// the quoted text of Error() and node.print and Execute's text
 	type site struct{ recv, name, what string }
